@@ -71,6 +71,12 @@ class ReturnEx(Exception):
         self.value = value
 class ContinueEx(Exception):
     pass
+class Closure(object):
+    def __init__(self, params, body, env, file, owner):
+        self.params, self.body, self.env, self.file, self.owner = params, body, env, file, owner
+def _mine(exc, node):
+    lab = getattr(exc, "label", None)
+    return lab is None or lab == getattr(node, "label", None)
 class RustPanic(Exception):
     def __init__(self, file, line, what):
         self.file, self.line, self.what = file, line, what
@@ -326,27 +332,105 @@ class Interp(object):
         return ()
 
     def bind(self, pat, val, scope, line):
+        """binds the pattern; returns False when a refutable pattern does not match"""
         k = pat[0]
         if k == "pid":
             scope[pat[1]] = val
-        elif k == "pwild":
-            pass
-        elif k == "ptuple":
+            return True
+        if k == "pwild":
+            return True
+        if k == "ptuple":
+            if val == () and not pat[1]:
+                return True
             if not isinstance(val, tuple) or len(val) != len(pat[1]):
                 self.unsupported(line, "tuple pattern does not match value")
-            for p, v in zip(pat[1], val):
-                self.bind(p, v, scope, line)
-        else:
-            self.unsupported(line, "unsupported pattern in binding")
+            return all([self.bind(p, v, scope, line) for p, v in zip(pat[1], val)])
+        if k == "pint":
+            if isinstance(val, int) and not isinstance(val, bool):
+                return val == pat[1]
+            self.unsupported(line, "integer pattern against a non-integer / symbolic value")
+        if k == "pbool":
+            if isinstance(val, bool):
+                return val == pat[1]
+            self.unsupported(line, "boolean pattern against a symbolic value")
+        if k == "prange":
+            if isinstance(val, int) and not isinstance(val, bool):
+                return pat[1] <= val <= pat[2]
+            self.unsupported(line, "range pattern against a non-integer / symbolic value")
+        if k == "ppath":
+            name = pat[1][-1]
+            if isinstance(val, ResultV):
+                return val.kind == name
+            self.unsupported(line, "path pattern against %r" % (type(val).__name__,))
+        if k == "pctor":
+            name = pat[1][-1]
+            if isinstance(val, ResultV):
+                if val.kind != name:
+                    return False
+                if len(pat[2]) != 1:
+                    self.unsupported(line, "constructor pattern arity")
+                return self.bind(pat[2][0], val.value, scope, line)
+            self.unsupported(line, "constructor pattern against %r" % (type(val).__name__,))
+        if k == "pstruct":
+            if isinstance(val, Struct):
+                return all([self.bind(p, val.fields[f], scope, line) for f, p in pat[2]])
+            self.unsupported(line, "struct pattern against %r" % (type(val).__name__,))
+        if k == "pslice":
+            before, rest, after = pat[1], pat[2], pat[3]
+            if not isinstance(val, list):
+                self.unsupported(line, "slice pattern against %r" % (type(val).__name__,))
+            n = len(val)
+            if rest is False:
+                if n != len(before):
+                    return False
+            elif n < len(before) + len(after):
+                return False
+            ok = all([self.bind(p, x, scope, line) for p, x in zip(before, val[:len(before)])])
+            if after:
+                ok = ok and all([self.bind(p, x, scope, line) for p, x in zip(after, val[n - len(after):])])
+            if rest:
+                scope[rest] = RList(val[len(before):n - len(after)])
+            return ok
+        if k == "pbind":
+            if self.bind(pat[2], val, scope, line):
+                scope[pat[1]] = val
+                return True
+            return False
+        if k == "por":
+            for alt in pat[1]:
+                sc = {}
+                if self.bind(alt, val, sc, line):
+                    scope.update(sc)
+                    return True
+            return False
+        self.unsupported(line, "unsupported pattern in binding")
 
     def exec_stmt(self, s, env):
         k = s[0]
         if k == "let":
             _, pat, _mut, init, line = s
             val = self.eval(init, env) if init is not None else None
-            self.bind(pat, val, env[-1], line)
+            if not self.bind(pat, val, env[-1], line):
+                self.unsupported(line, "refutable pattern in let")
         elif k == "assign":
             _, op, lhs, rhs, line = s
+            if lhs[0] == "un" and lhs[1] == "*":
+                lhs = lhs[2]
+            if lhs[0] in ("field", "index"):
+                val = self.eval(rhs, env)
+                obj = self.eval(lhs[1], env)
+                if lhs[0] == "field" and isinstance(obj, Struct) and lhs[2] in obj.fields:
+                    obj.fields[lhs[2]] = val if op == "=" else self.arith(op[0], obj.fields[lhs[2]], val, line)
+                    return
+                if lhs[0] == "index" and isinstance(obj, list):
+                    i = self.eval(lhs[2], env)
+                    if not isinstance(i, int) or isinstance(i, bool):
+                        self.unsupported(line, "index is not a concrete integer")
+                    if i < 0 or i >= len(obj):
+                        raise RustPanic(self.file, line, "index %d out of bounds (len %d)" % (i, len(obj)))
+                    obj[i] = val if op == "=" else self.arith(op[0], obj[i], val, line)
+                    return
+                self.unsupported(line, "unsupported assignment target")
             if lhs[0] != "path" or len(lhs[1]) != 1:
                 self.unsupported(line, "assignment target is not a local variable")
             name = lhs[1][0]
@@ -462,16 +546,117 @@ class Interp(object):
         v = self.eval(scrut, env)
         if isinstance(v, F):
             self.unsupported(line, "match on a Felt")
-        if not isinstance(v, int):
+        if self.is_sym(v) or isinstance(v, Cond):
             self.unsupported(line, "match on a non-integer / symbolic value")
-        for pat, body in arms:
-            if pat[0] == "pint" and pat[1] == v:
-                return self.eval(body, env)
-            if pat[0] == "pwild":
-                return self.eval(body, env)
-            if pat[0] == "pid":
-                return self.eval(body, env + [{pat[1]: v}])
+        for arm in arms:
+            pat, body = arm[0], arm[1]
+            scope = {}
+            if self.bind(pat, v, scope, line):
+                if len(arm) > 2 and not self.truth(self.eval(arm[2], env + [scope]), line):
+                    continue
+                return self.eval(body, env + [scope])
         raise RustPanic(self.file, line, "non-exhaustive match")
+
+    def ev_iflet(self, e, env):
+        _, pat, scrut, then, els, line = e
+        v = self.eval(scrut, env)
+        scope = {}
+        if self.bind(pat, v, scope, line):
+            return self.exec_block(then, env + [scope])
+        if els is not None:
+            return self.exec_block(els, env)
+        return ()
+
+    def ev_letelse(self, e, env):
+        _, pat, init, blk, line = e
+        v = self.eval(init, env)
+        scope = {}
+        if self.bind(pat, v, scope, line):
+            env[-1].update(scope)
+            return ()
+        self.exec_block(blk, env)
+        self.unsupported(line, "the else block of `let .. else` did not diverge")
+
+    def ev_matches(self, e, env):
+        _, x, pat, guard, line = e
+        v = self.eval(x, env)
+        scope = {}
+        if not self.bind(pat, v, scope, line):
+            return False
+        return self.truth(self.eval(guard, env + [scope]), line) if guard is not None else True
+
+    def ev_closure(self, e, env):
+        return Closure(e[1], e[2], env, self.file, self.owner)
+
+    def call_closure(self, c, args, line):
+        if not isinstance(c, Closure):
+            if callable(c):
+                return c(*args)
+            self.unsupported(line, "call of a non-closure value")
+        if len(args) != len(c.params):
+            self.unsupported(line, "closure arity mismatch")
+        scope = {}
+        for p, a in zip(c.params, args):
+            if not self.bind(p, a, scope, line):
+                self.unsupported(line, "closure parameter pattern does not match")
+        save = (self.file, self.owner)
+        self.file, self.owner = c.file, c.owner
+        try:
+            return self.eval(c.body, c.env + [scope])
+        finally:
+            self.file, self.owner = save
+
+    def ev_array(self, e, env):
+        return RList([self.eval(x, env) for x in e[1]])
+
+    def ev_repeat(self, e, env):
+        n = self.eval(e[2], env)
+        if not isinstance(n, int) or isinstance(n, bool):
+            self.unsupported(e[-1], "array length is not a concrete integer")
+        return RList([self.eval(e[1], env) for _ in range(n)])
+
+    def ev_while(self, e, env):
+        _, cond, blk, line = e
+        n = 0
+        while True:
+            if self.on_loop_head is not None:
+                self.on_loop_head(self, env, n, line)
+            if n >= self.max_loop:
+                raise LoopBound("%s:%d: loop did not terminate within %d iterations" % (self.file, line, self.max_loop))
+            if not self.truth(self.eval(cond, env), line):
+                return ()
+            try:
+                self.exec_block(blk, env)
+            except BreakEx as b:
+                if not _mine(b, e):
+                    raise
+                return ()
+            except ContinueEx as c:
+                if not _mine(c, e):
+                    raise
+            n += 1
+
+    def ev_whilelet(self, e, env):
+        _, pat, scrut, blk, line = e
+        n = 0
+        while True:
+            if self.on_loop_head is not None:
+                self.on_loop_head(self, env, n, line)
+            if n >= self.max_loop:
+                raise LoopBound("%s:%d: loop did not terminate within %d iterations" % (self.file, line, self.max_loop))
+            scope = {}
+            if not self.bind(pat, self.eval(scrut, env), scope, line):
+                return ()
+            try:
+                self.exec_block(blk, env + [scope])
+            except BreakEx as b:
+                if not _mine(b, e):
+                    raise
+                return ()
+            except ContinueEx as c:
+                if not _mine(c, e):
+                    raise
+            n += 1
 
     def ev_loop(self, e, env):
         _, blk, line = e
@@ -484,9 +669,12 @@ class Interp(object):
             try:
                 self.exec_block(blk, env)
             except BreakEx as b:
+                if not _mine(b, e):
+                    raise
                 return b.value if b.value is not None else ()
-            except ContinueEx:
-                pass
+            except ContinueEx as c:
+                if not _mine(c, e):
+                    raise
             n += 1
 
     def ev_for(self, e, env):
@@ -500,20 +688,29 @@ class Interp(object):
             if self.on_loop_head is not None:
                 self.on_loop_head(self, env, n, line)
             scope = {}
-            self.bind(pat, item, scope, line)
+            if not self.bind(pat, item, scope, line):
+                self.unsupported(line, "refutable pattern in for")
             try:
                 self.exec_block(blk, env + [scope])
-            except BreakEx:
+            except BreakEx as b:
+                if not _mine(b, e):
+                    raise
                 break
-            except ContinueEx:
+            except ContinueEx as c:
+                if not _mine(c, e):
+                    raise
                 continue
         return ()
 
     def ev_continue(self, e, env):
-        raise ContinueEx()
+        c = ContinueEx()
+        c.label = getattr(e, "label", None)
+        raise c
 
     def ev_break(self, e, env):
-        raise BreakEx(self.eval(e[1], env) if e[1] is not None else None)
+        b = BreakEx(self.eval(e[1], env) if e[1] is not None else None)
+        b.label = getattr(e, "label", None)
+        raise b
 
     def ev_return(self, e, env):
         raise ReturnEx(self.eval(e[1], env) if e[1] is not None else ())
@@ -630,6 +827,9 @@ class Interp(object):
         if len(segs) == 1:
             if name in ("Ok", "Err", "Some"):
                 return ResultV(name, args[0] if args else ())
+            lv = self.lookup(env, name)
+            if lv is not KeyError and (isinstance(lv, Closure) or callable(lv)):
+                return self.call_closure(lv, args, line)
             fn, mod = self.find_fn(name)
             if fn is not None:
                 return self.call_fn(fn, mod, args, line)
@@ -652,8 +852,20 @@ class Interp(object):
                 if not isinstance(v, F):
                     self.nonzero.append((v, self.file, line))
                 return ResultV("Ok", v)
-        if ty == "Vec" and name == "new":
+        if ty in ("Vec", "VecDeque") and name in ("new", "with_capacity"):
             return RList([])
+        if ty in ("usize", "u64", "u32", "u128", "u8", "u16") and name in ("from", "try_from"):
+            v0 = args[0]
+            if isinstance(v0, F):
+                v0 = v0.v
+            if isinstance(v0, bool):
+                v0 = 1 if v0 else 0
+            if not isinstance(v0, int):
+                self.unsupported(line, "%s::%s of a symbolic value" % (ty, name))
+            lim = 2 ** {"usize": 64, "u64": 64, "u32": 32, "u128": 128, "u8": 8, "u16": 16}[ty]
+            if name == "from":
+                return v0
+            return ResultV("Ok", v0) if v0 < lim else ResultV("Err", "TryFromIntError")
         fn, mod = self.find_fn(name)
         if fn is not None and ty not in ("Felt", "NonZeroFelt"):
             return self.call_fn(fn, mod, args, line)
@@ -684,13 +896,47 @@ class Interp(object):
                 if v.kind in ("Ok", "Some"):
                     return v.value
                 raise RustPanic(self.file, line, "unwrap on %s" % v.kind)
+            good = v.kind in ("Ok", "Some")
             if name == "is_ok": return v.kind == "Ok"
             if name == "is_err": return v.kind == "Err"
+            if name == "is_some": return v.kind == "Some"
+            if name == "is_none": return v.kind == "None"
+            if name in ("is_some_and", "is_ok_and"):
+                return self.truth(self.call_closure(args[0], [v.value], line), line) if good else False
+            if name == "is_none_or":
+                return True if v.kind == "None" else self.truth(self.call_closure(args[0], [v.value], line), line)
+            if name == "ok_or": return ResultV("Ok", v.value) if good else ResultV("Err", args[0])
+            if name == "ok_or_else": return ResultV("Ok", v.value) if good else ResultV("Err", self.call_closure(args[0], [], line))
+            if name == "ok": return ResultV("Some", v.value) if v.kind == "Ok" else ResultV("None")
+            if name == "map": return ResultV(v.kind, self.call_closure(args[0], [v.value], line)) if good else v
+            if name == "map_err": return v if good else ResultV("Err", self.call_closure(args[0], [v.value], line))
+            if name == "and_then": return self.call_closure(args[0], [v.value], line) if good else v
+            if name == "unwrap_or": return v.value if good else args[0]
+            if name == "unwrap_or_else": return v.value if good else self.call_closure(args[0], [] if v.kind == "None" else [v.value], line)
+            if name == "map_or": return self.call_closure(args[1], [v.value], line) if good else args[0]
+            if name in ("copied", "cloned", "clone", "as_ref", "as_mut", "to_owned"): return v
             self.unsupported(line, "method .%s on Result/Option" % name)
         if isinstance(v, tuple) and v and v[0] == "iter":
             return self.list_method(v, name, args, line)
         if isinstance(v, Struct) and name == "clone":
             return v
+        if isinstance(v, tuple) and name in ("clone", "to_owned"):
+            return v
+        if isinstance(v, int) and not isinstance(v, bool) and name in ("max", "min", "checked_sub", "checked_add", "saturating_sub", "pow", "is_power_of_two", "ilog2"):
+            o = args[0] if args else None
+            if o is not None and (not isinstance(o, int) or isinstance(o, bool)):
+                self.unsupported(line, "integer method .%s with a non-integer argument" % name)
+            if name == "max": return max(v, o)
+            if name == "min": return min(v, o)
+            if name == "checked_sub": return ResultV("Some", v - o) if v >= o else ResultV("None")
+            if name == "checked_add": return ResultV("Some", v + o) if v + o < 2**64 else ResultV("None")
+            if name == "saturating_sub": return max(v - o, 0)
+            if name == "pow": return v ** o
+            if name == "is_power_of_two": return v > 0 and v & (v - 1) == 0
+            if name == "ilog2":
+                if v <= 0:
+                    raise RustPanic(self.file, line, "argument of integer logarithm must be positive")
+                return v.bit_length() - 1
         # Felt / integer methods
         if name in ("clone", "into", "to_owned", "to_biguint", "to_bigint", "borrow"):
             if name in ("to_biguint", "to_bigint"):
@@ -718,27 +964,171 @@ class Interp(object):
             return ResultV("Some", self.felt_fdiv(F(1), v, line))
         self.unsupported(line, "unknown method .%s()" % name)
 
+    def _idx(self, x, line, what):
+        if not isinstance(x, int) or isinstance(x, bool):
+            self.unsupported(line, "%s is not a concrete integer" % what)
+        return x
+
+    def _items(self, x, line):
+        if isinstance(x, tuple) and len(x) == 3 and x[0] == "range":
+            if x[2] is None:
+                self.unsupported(line, "unbounded range")
+            return list(range(x[1] or 0, x[2]))
+        if isinstance(x, list):
+            return x
+        if isinstance(x, ResultV):
+            return [x.value] if x.kind in ("Some", "Ok") else []
+        self.unsupported(line, "value is not iterable")
+
     def list_method(self, v, name, args, line):
         if name == "len":
             return len(v)
-        if name in ("iter", "iter_mut", "into_iter", "to_vec", "clone", "as_slice", "copied", "cloned"):
+        if name in ("iter", "iter_mut", "into_iter", "as_slice", "copied", "cloned", "by_ref", "as_ref", "peekable"):
             return v
+        if name in ("to_vec", "clone", "to_owned"):
+            return RList(list(v), rtype=getattr(v, "rtype", None))
+        if name == "collect":
+            return RList(list(v))
         if name == "rev":
-            return RList(list(reversed(v)), rtype=getattr(v, "rtype", None))
+            return RList(list(reversed(v)))
         if name == "enumerate":
             return RList([(i, x) for i, x in enumerate(v)])
         if name == "is_empty":
             return len(v) == 0
         if name == "get":
             i = args[0]
-            if not isinstance(i, int):
-                self.unsupported(line, ".get() with a non-concrete index")
+            if isinstance(i, tuple) and len(i) == 3 and i[0] == "range":
+                lo = 0 if i[1] is None else self._idx(i[1], line, "range bound")
+                hi = len(v) if i[2] is None else self._idx(i[2], line, "range bound")
+                return ResultV("Some", RList(v[lo:hi])) if lo <= hi <= len(v) else ResultV("None")
+            i = self._idx(i, line, ".get() index")
             return ResultV("Some", v[i]) if 0 <= i < len(v) else ResultV("None")
-        if name == "push":
+        if name in ("push", "push_back"):
             v.append(args[0])
             return ()
-        if name in ("first", "last"):
+        if name in ("pop", "pop_back"):
+            return ResultV("Some", v.pop()) if v else ResultV("None")
+        if name in ("pop_front", "next"):
+            return ResultV("Some", v.pop(0)) if v else ResultV("None")
+        if name in ("first", "last", "front", "back", "peek"):
             if not v:
                 return ResultV("None")
-            return ResultV("Some", v[0] if name == "first" else v[-1])
+            return ResultV("Some", v[0] if name in ("first", "front", "peek") else v[-1])
+        if name in ("extend", "extend_from_slice"):
+            v.extend(self._items(args[0], line))
+            return ()
+        if name == "map":
+            return RList([self.call_closure(args[0], [x], line) for x in list(v)])
+        if name == "flat_map":
+            out = []
+            for x in list(v):
+                out.extend(self._items(self.call_closure(args[0], [x], line), line))
+            return RList(out)
+        if name == "filter":
+            return RList([x for x in list(v) if self.truth(self.call_closure(args[0], [x], line), line)])
+        if name == "fold":
+            acc = args[0]
+            for x in list(v):
+                acc = self.call_closure(args[1], [acc, x], line)
+            return acc
+        if name in ("sum", "product"):
+            acc = F(0) if name == "sum" else F(1)
+            for x in v:
+                acc = self.arith("+" if name == "sum" else "*", acc, x, line)
+            return acc
+        if name in ("all", "any"):
+            for x in list(v):
+                c = self.truth(self.call_closure(args[0], [x], line), line)
+                if name == "all" and not c:
+                    return False
+                if name == "any" and c:
+                    return True
+            return name == "all"
+        if name in ("find", "position"):
+            for i, x in enumerate(list(v)):
+                if self.truth(self.call_closure(args[0], [x], line), line):
+                    return ResultV("Some", x if name == "find" else i)
+            return ResultV("None")
+        if name == "for_each":
+            for x in list(v):
+                self.call_closure(args[0], [x], line)
+            return ()
+        if name == "chain":
+            return RList(list(v) + list(self._items(args[0], line)))
+        if name == "zip":
+            o = args[0]
+            if isinstance(o, tuple) and len(o) == 3 and o[0] == "range" and o[2] is None:
+                return RList([(x, (o[1] or 0) + i) for i, x in enumerate(v)])
+            return RList(list(zip(v, self._items(o, line))))
+        if name == "unzip":
+            return (RList([x[0] for x in v]), RList([x[1] for x in v]))
+        if name in ("skip", "take", "step_by", "nth"):
+            c = self._idx(args[0], line, ".%s() argument" % name)
+            if name == "skip":
+                return RList(v[c:])
+            if name == "take":
+                return RList(v[:c])
+            if name == "nth":
+                return ResultV("Some", v[c]) if c < len(v) else ResultV("None")
+            if c == 0:
+                raise RustPanic(self.file, line, "assertion failed: step != 0")
+            return RList(v[::c])
+        if name == "count":
+            return len(v)
+        if name in ("split_at", "split_at_mut"):
+            c = self._idx(args[0], line, "split_at argument")
+            if c > len(v):
+                raise RustPanic(self.file, line, "mid > len")
+            return (RList(v[:c]), RList(v[c:]))
+        if name in ("split_first", "split_last"):
+            if not v:
+                return ResultV("None")
+            return ResultV("Some", (v[0], RList(v[1:])) if name == "split_first" else (v[-1], RList(v[:-1])))
+        if name in ("chunks", "chunks_exact", "windows"):
+            c = self._idx(args[0], line, "chunk size")
+            if c == 0:
+                raise RustPanic(self.file, line, "%s size must be non-zero" % name)
+            if name == "windows":
+                return RList([RList(v[i:i + c]) for i in range(0, len(v) - c + 1)])
+            end = len(v) if name == "chunks" else len(v) // c * c
+            return RList([RList(v[i:i + c]) for i in range(0, end, c)])
+        if name == "remove":
+            c = self._idx(args[0], line, "remove index")
+            if c >= len(v):
+                raise RustPanic(self.file, line, "removal index (is %d) should be < len (is %d)" % (c, len(v)))
+            return v.pop(c)
+        if name == "insert":
+            c = self._idx(args[0], line, "insert index")
+            if c > len(v):
+                raise RustPanic(self.file, line, "insertion index (is %d) should be <= len (is %d)" % (c, len(v)))
+            v.insert(c, args[1])
+            return ()
+        if name == "truncate":
+            del v[self._idx(args[0], line, "truncate length"):]
+            return ()
+        if name == "reverse":
+            v.reverse()
+            return ()
+        if name == "swap":
+            a_, b_ = self._idx(args[0], line, "swap index"), self._idx(args[1], line, "swap index")
+            if max(a_, b_) >= len(v):
+                raise RustPanic(self.file, line, "index out of bounds")
+            v[a_], v[b_] = v[b_], v[a_]
+            return ()
+        if name == "drain":
+            r = args[0]
+            if not (isinstance(r, tuple) and len(r) == 3 and r[0] == "range"):
+                self.unsupported(line, ".drain() without a range")
+            lo = 0 if r[1] is None else self._idx(r[1], line, "range bound")
+            hi = len(v) if r[2] is None else self._idx(r[2], line, "range bound")
+            if lo > hi or hi > len(v):
+                raise RustPanic(self.file, line, "drain range %d..%d out of bounds (len %d)" % (lo, hi, len(v)))
+            out = v[lo:hi]
+            del v[lo:hi]
+            return RList(out)
+        if name == "concat":
+            out = []
+            for x in v:
+                out.extend(x)
+            return RList(out)
         self.unsupported(line, "unknown slice method .%s()" % name)
